@@ -56,6 +56,7 @@ class Engine:
                  max_depth=120):
         self.P = program
         self.models = []            # [(compiled regex, fn)] ; first match wins; obligation models first
+        self.fallback_models = []   # consulted only when the callee has no MIR
         self.havoc = []             # compiled regexes of callees that may be summarised by a fresh value
         self.bb_hooks = {}          # (fn key, bb) -> callable(eng, frame)
         self.call_hooks = {}        # fn key -> callable(eng, fn, args) -> None | ('return', value)
@@ -86,9 +87,13 @@ class Engine:
         self.trace = None
         from . import stdmodels
         stdmodels.install(self)
+
     # ------------------------------------------------------------------ registration helpers
-    def model(self, pattern, fn, front=True):
+    def model(self, pattern, fn, front=True, fallback=False):
         item = (re.compile(pattern), fn, pattern)
+        if fallback:
+            self.fallback_models.append(item)
+            return
         if front:
             self.models.insert(0, item)
         else:
@@ -293,6 +298,10 @@ class Engine:
         return m.eval(term, model_completion=True)
     def note(self, *a):
         self.notes.append(a)
+    def note_access(self, ptr):
+        acc = self.path_state.get('accesses')
+        if acc is not None:
+            acc.append((ptr.seq, ptr.idx))
     # ------------------------------------------------------------------ fresh / lazy values
     def fresh_name(self, hint):
         self.fresh_n += 1
@@ -460,10 +469,13 @@ class Engine:
                     for i, (_, fty) in enumerate(vdef[2]):
                         c = v.field(self, vn, i, subst_generics(fty, v.edef, v.ty))
                         self._bind_elem(c.get(self), backing.child(vn).child(i))
-        elif v is None:
+        elif v is None or isinstance(v, Opaque):
             pass
         else:
-            raise Unsupported(f'store of {type(v).__name__} into symbolic sequence')
+            be = getattr(v, 'bind_elem', None)
+            if be is None:
+                raise Unsupported(f'store of {type(v).__name__} into symbolic sequence')
+            be(self, backing)
     def const_usize(self, n):
         n = n.strip()
         m = re.match(r'^(\d+)(_usize)?$', n)
@@ -869,6 +881,15 @@ class Engine:
             else:
                 v = (1 << (w - 1)) - 1 if sg else (1 << w) - 1
             return bv(v, w)
+        m = re.match(r'^(?:core|std)::num::<impl ([iu]\d+|[iu]size)>::(MIN|MAX|BITS)$', s)
+        if m:
+            w = INT_BITS[m.group(1)]
+            sg = m.group(1) in SIGNED
+            if m.group(2) == 'BITS':
+                return bv(w, 32)
+            if m.group(2) == 'MIN':
+                return bv(-(1 << (w - 1)) if sg else 0, w)
+            return bv((1 << (w - 1)) - 1 if sg else (1 << w) - 1, w)
         if s.startswith('"'):
             return StrV(unescape(s[1:-1]))
         if s.startswith('b"'):
@@ -907,7 +928,8 @@ class Engine:
             head = strip_generics(s).split('::')[-1]
             if self.P.struct_def(s) is not None:
                 return Struct(norm_ty(s), {}, None)
-            return FnItem(s)
+            if not head.isupper():
+                return FnItem(s)
         raise Unsupported('const ' + s)
     def rvalue(self, fr, rv, dest_ty=None, dest=None):
         k = rv[0]
@@ -1066,6 +1088,8 @@ class Engine:
             sd = self.P.struct_def(dt)
             if sd is not None:
                 return Struct(dt, dict(enumerate(vals)), None)
+        if 'panicking::AssertKind' in ty:
+            return Opaque(ty, 'assert_kind')
         raise Unsupported(f'aggregate {path} (unknown type) in {fr.fn.name}')
     # ------------------------------------------------------------------ arithmetic
     def binop(self, op, a, b, ty):
@@ -1305,6 +1329,38 @@ class Engine:
         tm = getattr(v, 'transmute', None)
         if tm is not None:
             return tm(self, to)
+        ed = self.P.enum_def(to) if ty_kind(to) == 'adt' else None
+        if ed is not None and isinstance(v, z3.BitVecRef):
+            if all(not var[2] for var in ed.variants):
+                # integer -> field-less enum: the value is the discriminant; anything else is undefined behaviour
+                n = len(ed.variants)
+                if not self.fork_bool(z3.ULT(v, n)):
+                    raise PathEnd('ub', f'transmute of an out-of-range integer to {to}')
+                return EnumV(to, fit(v, 64), None, None, ed)
+            if v.size() == 16 and all(len(var[2]) == 1 and norm_ty(var[2][0][1]) in ('u8', 'i8') for var in ed.variants):
+                # layout assumption (rustc): 1-byte tag then 1-byte payload
+                tag = z3.simplify(z3.Extract(7, 0, v))
+                pay = z3.simplify(z3.Extract(15, 8, v))
+                if not self.fork_bool(z3.ULT(tag, len(ed.variants))):
+                    raise PathEnd('ub', f'transmute of an invalid tag to {to}')
+                t = self.concretize(tag, list(range(len(ed.variants))))
+                vn = ed.variants[t][0]
+                return EnumV(to, t, {vn: {0: Cell(pay)}}, None, ed)
+        if to in INT_BITS and isinstance(v, EnumV) and v.edef is not None:
+            w = INT_BITS[to]
+            if all(not var[2] for var in v.edef.variants):
+                return self.discriminant(v, w)
+            if w == 16 and all(len(var[2]) == 1 for var in v.edef.variants):
+                t = v.tag if not isinstance(v.tag, int) else bv(v.tag, 64)
+                if isinstance(v.tag, int):
+                    vn = v.edef.variants[v.tag][0]
+                    pay = v.payload[vn][0].get(self) if vn in v.payload and 0 in v.payload[vn] else v.field(self, vn, 0, 'u8').get(self)
+                else:
+                    k = self.concretize(v.tag, list(range(len(v.edef.variants))))
+                    vn = v.edef.variants[k][0]
+                    pay = v.field(self, vn, 0, 'u8').get(self)
+                    t = bv(k, 64)
+                return z3.simplify(z3.Concat(pay, z3.Extract(7, 0, t)))
         for rx, fn, _ in self.models:
             if rx.match('transmute ' + to):
                 return fn(self, [v], CallCtx('transmute', 'transmute ' + to, to, fr))
@@ -1378,10 +1434,24 @@ class Engine:
                         pass
                     raise PathEnd('panic', (fr.fn.name, norm, msg))
                 args = [self.operand(fr, a) for a in argops]
-                f, subst = self.resolve(callee, norm, args, fr)
+                if any(rx.search(norm) for rx in self.havoc):
+                    f, subst = None, None
+                    hav = True
+                else:
+                    f, subst = self.resolve(callee, norm, args, fr)
+                    hav = False
+                fb = None
+                if f is None and not hav:
+                    for rx, fn_, pat in self.fallback_models:
+                        if rx.match(norm):
+                            fb = (fn_, pat)
+                            break
                 if f is not None:
                     r = self.exec_fn(f, args, fr.depth + 1, subst)
-                elif any(rx.search(norm) for rx in self.havoc):
+                elif fb is not None:
+                    self.models_used.add(fb[1])
+                    r = fb[0](self, args, CallCtx(callee, norm, dty, fr, [self.operand_ty(fr, a) for a in argops], ret_bb))
+                elif hav:
                     self.functions_havoced.add(norm)
                     if ret_bb is None:
                         raise PathEnd('diverge', norm)
